@@ -1,6 +1,7 @@
 // Reference models written from RFC 8949 and the header documentation only
 // (DESIGN.md §4). Shares no code with libcbor.
 #pragma once
+#include <functional>
 #include "util.hpp"
 #include <memory>
 
@@ -44,6 +45,10 @@ struct MV {
 void ref_encode(const MV& v, std::vector<uint8_t>& out);
 static inline std::vector<uint8_t> ref_encode(const MV& v) { std::vector<uint8_t> o; ref_encode(v, o); return o; }
 void ref_head(unsigned major, uint64_t arg, std::vector<uint8_t>& out);   // shortest head
+// What a sender may legally put on the wire for the same data item: lengths, counts and tag numbers in ANY head width that holds them
+// (RFC 8949 3.1: preferred serialization is a recommendation, decoders accept all), NaN payloads as stored. `widen` is consulted per head:
+// it returns how many width steps (0..4) above the shortest to go. The decoded tree is the same; cbor_serialize emits the shortest again.
+void ref_encode_wire(const MV& v, const std::function<unsigned()>& widen, std::vector<uint8_t>& out);
 unsigned ref_depth(const MV& v);     // nesting levels the decoder needs (empty definite containers do not count)
 std::string mv_str(const MV& v, int limit = 200);   // short printable form
 size_t ref_utf8_count(const uint8_t* p, size_t n);  // strict RFC 3629 count, 0 when invalid
